@@ -4,7 +4,7 @@
  (c) the demonstration fails with the change.  Confirmed ones are stored under /verif/seeded/<prop>-<X>/."""
 import json, os, re, shutil, subprocess, sys
 SRC = sys.argv[1] if len(sys.argv) > 1 else "/tmp/mut"
-WT = "/tmp/vs-worktree"
+WT = os.environ.get("VS_WT", "/tmp/vs-worktree")
 ENV = dict(os.environ, GOFLAGS="-mod=mod", GOPROXY="off", GOSUMDB="off", GOTOOLCHAIN="local")
 only = sys.argv[2:]  # e.g. C02-A
 
